@@ -85,6 +85,9 @@ structure Cfg where
   skipPresent : Bool
   /-- the write-back of `notifyNow` does not re-create a job that was removed while the receiver ran -/
   writeBackSkipsGone : Bool
+  /-- notifyNow wraps its own storage errors in retry.Unrecoverable, so one of them ends a running retry loop
+      (the code before the repair); false: they are returned as they are and the loop goes on -/
+  storageFaultEndsLoop : Bool
 
 /-- a running `retry.Do` goroutine -/
 structure Task where
@@ -329,7 +332,11 @@ def fire (c : Cfg) (σ : St) (s r : Nat) : St :=
     | (σ', .crashed) => crashSt σ'
     | (σ', .nil) => σ'
     | (σ', .fatal) => σ'
-    | (σ', .unrec) => σ'   -- retry-go stops the loop on any Unrecoverable error
+    | (σ', .unrec) =>
+      -- the notifier's own storage error: (before the repair) retry.Unrecoverable ends the loop; now it is an
+      -- ordinary failed attempt
+      if c.storageFaultEndsLoop || t.left ≤ 1 then σ'
+      else { σ' with running := σ'.running ++ [{ t with left := t.left - 1, n := t.n + 1 }] }
     | (σ', .err) =>
       if t.left ≤ 1 then σ'
       else { σ' with running := σ'.running ++ [{ t with left := t.left - 1, n := t.n + 1 }] }
